@@ -766,7 +766,7 @@ def describe(tier):
     return {
         'level': 'model_checking',
         'functions': ['mpilot/parser/parser.py: Lexer token rules (live master regex, rule order, ignore set) and token actions; Parser grammar actions p_* executed by the real ply.yacc LRParser on the live LALR tables'],
-        'bounds': {'quick': 'L1: 18 lexeme classes, lexemes <= 6 characters + 1-2 following characters, alphabet = printable ASCII, TAB, CR, LF, e-acute, one CJK character; unquoted text: 4 classes x 4 witnesses x 3 contexts; '
+        'bounds': {'quick': 'L1: 20 lexeme classes (token value decided on <= 4 distinct solver-chosen members per class), lexemes <= 6 characters + 1-2 following characters, alphabet = printable ASCII, TAB, CR, LF, e-acute, one CJK character; unquoted text: 4 classes x 4 witnesses x 3 contexts; '
                             'L3: every abstract program with 1 command x <=2 arguments x 10 value kinds (numbers, strings, unquoted words, multi-piece and colon text, digit-leading text, lists / tuples of width <= 2 nested once) incl. EEMS-2 commands and trailing commas, all token values and line numbers symbolic; '
                             '2 commands x 1 argument with ~30 single-token corruptions each against the reference recogniser; LC: 128 concrete renderings (spacing, line breaks, comments, quote kind, trailing commas)',
                    'thorough': 'lexemes <= 8 chars; 1 command x 2 arguments with lists/tuples of depth 1 (11 pinned slices), nesting depth 2 (width 1), width 2 (depth 1), 2 commands with 40 single-token corruptions per stream (8 slices), 3 commands x 1 scalar argument (64 slices)'},
